@@ -78,8 +78,12 @@ impl ProtoFmt for time::Duration {
         let mut seconds = self.whole_seconds();
         let mut nanos = self.subsec_nanoseconds();
         if nanos < 0 {
-            seconds -= 1;
-            nanos += 1_000_000_000;
+            // Normalize to non-negative nanos, unless that would overflow the seconds
+            // (durations below `i64::MIN` seconds are encoded with negative nanos, which `read` accepts).
+            if let Some(s) = seconds.checked_sub(1) {
+                seconds = s;
+                nanos += 1_000_000_000;
+            }
         }
         Self::Proto {
             seconds: Some(seconds),
